@@ -151,10 +151,10 @@ func (c *VirtualTable) Disconnect() error {
 	if err := toSqlite(c.common.Disconnect()); err != nil {
 		return err
 	}
-	if c.module.sc.ctxCancel != nil {
-		c.module.sc.ctxCancel()
-		c.module.sc.ctxCancel = nil
-	}
+	// The context belongs to the connection, not to this table: release the
+	// old one but leave an equivalent context (same deadline and write time)
+	// for the connection's other tables.
+	c.module.sc.ResetContext()
 
 	return nil
 }
